@@ -17,7 +17,8 @@ MUTANTS = ["n_not_scaled", "volume_ignored", "rho_is_n"]
 DEV_TAGS = {"mass_fraction_mode", "element_proportion", "number_density_dict_form"}
 
 
-def cfg(maxk, pvals, mvals, dvals, vvals, emit, known):
+def cfg(maxk, pvals, mvals, dvals, vvals, emit, known, devs=None):
+    devs = DEV_TAGS if devs is None else devs
     return f"""CONSTANTS
   MaxK = {maxk}
   PVals = {C.tla_str(set(pvals))}
@@ -26,6 +27,7 @@ def cfg(maxk, pvals, mvals, dvals, vvals, emit, known):
   VVals = {C.tla_str(set(vvals))}
   Emit = {C.tla_str(emit)}
   Mutants = {C.tla_str(set(MUTANTS))}
+  Deviations = {C.tla_str(set(devs))}
   KnownDevs = {C.tla_str(set(known))}
 INIT Init
 NEXT Next
@@ -102,15 +104,18 @@ def run(replay=None):
     else:
         model = (3, [1, 2], [1, 2], [1, 3], [2])
         nconc = 8
-    r = C.run_tlc(wd, "Matter", cfg(*model, True, DEV_TAGS))
+    # the machine keeps exactly the switchable deviations that still have an open finding; the mass-fraction one has no
+    # known repair and is always in the machine.  The emission run excuses whatever the machine contains.
+    enabled = set(known) | {"mass_fraction_mode"}
+    r = C.run_tlc(wd, "Matter", cfg(*model, True, enabled, known))
     states, trans = r.distinct, r.generated
     if r.violated:
         V.notes.append("TLC: Sound violated on the rational model: " + r.cex[:800])
     # design-level run with only the OPEN findings excused: a deviation of the machine that no open finding covers is a
     # counterexample (it becomes a violation only if the code reproduces it, which the replay below decides)
     design_cex = None
-    if known != DEV_TAGS:
-        rd = C.run_tlc(wd, "Matter", cfg(2, [1, 2], [1, 2], [3], [2], False, known), want_records=False)
+    if enabled != known:
+        rd = C.run_tlc(wd, "Matter", cfg(2, [1, 2], [1, 2], [3], [2], False, known, known), want_records=False)
         states += rd.distinct; trans += rd.generated
         design_cex = bool(rd.violated)
         if rd.violated:
@@ -118,7 +123,7 @@ def run(replay=None):
     # sensitivity of the design-level check: without any excuse TLC must find the known deviations (thorough)
     sens = None
     if t == "thorough":
-        rs = C.run_tlc(wd, "Matter", cfg(2, [1, 2], [1, 2], [3], [2], False, set()), want_records=False)
+        rs = C.run_tlc(wd, "Matter", cfg(2, [1, 2], [1, 2], [3], [2], False, set(), DEV_TAGS), want_records=False)
         sens = bool(rs.violated)
         states += rs.distinct; trans += rs.generated
     rnd = random.Random(sd * 350377 + 7)
@@ -171,6 +176,7 @@ def run(replay=None):
         "tlc_sensitivity_counterexample_without_excuses": sens,
         "tlc_counterexample_with_open_findings_only": design_cex,
         "machine_vs_code_raise_disagreements": mach_disagree,
+        "machine_deviations_enabled": sorted(enabled),
     })
     V.assumptions += ["component masses are taken as observed (component_mass); their correctness is C10",
                       "the unit table entry Da -> g is given (C03/C04); tolerance rel 1e-9",
